@@ -28,6 +28,7 @@ import tempfile
 from ..translate import util as tu
 
 PROPERTY = "C19"
+CASE_TIMEOUT = 300  # s of wall clock per case in pool workers (runner watchdog): a case that spins forever is a verdict, not exit 2
 THEOREM_MODULE = "NemoVerif.Theorems.C19"
 RULE = ("fn: 1-4 sequential calls of the decorated _get_embeddings with 0-7 texts from a 9-symbol alphabet (duplicates, '', unicode), "
         "cache in {off, in_memory, filesystem(tmp dir), harness-registered shared store} x key generator in {md5, hash, harness-registered hex}, "
